@@ -168,7 +168,8 @@ def build(seed, tier):
                     kw[f] = r.choice(VALUES) if f != 'where' else r.choice(['3', '10', 'None', "Field(9)"])
             if r.random() < 0.15:
                 kw['fields'] = "{'value': %s, 'extra': 1}" % r.choice(VALUES)
-            if r.random() < 0.25 and cls in ('Feedback', 'resp_fb', 'notemplate_fb', 'gently', 'set_correct', 'system_error', 'group_fb'):
+            if r.random() < 0.25:
+                # classes with their own condition ignore `activate` (it only drives the default condition)
                 kw['activate'] = r.choice(['False', 'True', 'False'])
             if r.random() < 0.12:
                 kw['delay_condition'] = 'True'
